@@ -2440,7 +2440,10 @@ def to_arrow(
                     return recurse(next, mask & this_bitmask, True)
 
         elif isinstance(layout, ak.layout.BitMaskedArray):
-            bitmask = numpy.asarray(layout.mask, dtype=np.uint8)
+            # (only the bytes that cover len(layout) items: the mask buffer may be longer)
+            bitmask = numpy.asarray(layout.mask, dtype=np.uint8)[
+                : int(numpy.ceil(len(layout) / 8.0))
+            ]
 
             if layout.lsb_order is False:
                 bitmask = numpy.packbits(
